@@ -100,7 +100,7 @@ func streamConc(c *ctx) {
 					reply := messages.GetDeviceResponse{SerialNumber: types.SerialNumber(binary.LittleEndian.Uint32(req[4:8])), IpAddress: net.IPv4(127, 0, 0, 1), SubnetMask: net.IPv4(255, 0, 0, 0),
 						Gateway: net.IPv4(127, 0, 0, 1), MacAddress: types.MacAddress{1, 2, 3, 4, 5, 6}, Version: 0x0892, Date: types.ToDate(2024, 1, 1)}
 					b, _ := codec.Marshal(reply)
-					return []step{{5 * time.Millisecond, b}}
+					return []step{{5 * time.Millisecond, b, false}}
 				}
 				if len(req) == 64 && req[1] == 0x94 {
 					reply := messages.GetDeviceResponse{SerialNumber: 4000001, IpAddress: net.IPv4(127, 0, 0, 1), SubnetMask: net.IPv4(255, 0, 0, 0),
@@ -109,7 +109,7 @@ func streamConc(c *ctx) {
 					// (the second answer comes from the controller that is configured without an address)
 					reply.SerialNumber = 4000003
 					b3, _ := codec.Marshal(reply)
-					return []step{{3 * time.Millisecond, b}, {20 * time.Millisecond, b3}, {T / 2, b}}
+					return []step{{3 * time.Millisecond, b, false}, {20 * time.Millisecond, b3, false}, {T / 2, b, false}}
 				}
 				return echo(mkDelay(77))(req)
 			})
